@@ -49,8 +49,11 @@ def run_image_only(name, kw, case, ch):
     shape = tuple(case['shape'])
     img = image_for(name, shape, ch, rs)
     mask = rs.randint(0, 5, shape).astype(np.int32)
-    data = dict(image=img, mask=mask, masks=[mask.copy(), mask.copy() + 1], bboxes=[(1.0, 1.5, 0.0, 4.0, 5.5, 3.0, 'a')],
-                keypoints=[(2.5, 3.0, 1.0, 30.0, 2.0, 'k')], labels=['x'], dicom=copy.deepcopy(DICOM), mask2=mask.copy())
+    H_, W_, D_ = shape
+    data = dict(image=img, mask=mask, masks=[mask.copy(), mask.copy() + 1],
+                bboxes=[(0.0 if W_ < 3 else 1.0, 0.0 if H_ < 3 else 1.5, 0.0, min(4.0, W_), min(5.5, H_), min(3.0, D_), 'a')],
+                keypoints=[(min(2.5, W_ - 0.5), min(3.0, H_ - 0.5), min(1.0, D_ - 0.5), 30.0, 2.0, 'k')], labels=['x'],
+                dicom=copy.deepcopy(DICOM), mask2=mask.copy())
     ref = copy.deepcopy(data)
     pipe = A.Compose([getattr(A, name)(p=1.0, **kw)], bbox_params=A.BboxParams('pascal_voc_3d'),
                      keypoint_params=A.KeypointParams('xyzas', label_fields=['labels']),
@@ -94,6 +97,44 @@ def check_image_only(name, kw, case, viol):
     if out.shape != img.shape:
         viol.append({'site': 'C12:%s:image-shape' % name, 'kind': 'image_only', 'name': name, 'kw': kw, 'case': case,
                      'observed': list(out.shape), 'expected': list(img.shape)})
+
+
+def run_dropout(name, kw, shape, ch, seed):
+    rs = np.random.RandomState(seed % 1000)
+    full = tuple(shape) + ((ch,) if ch else ())
+    img = rs.randint(1, 200, full).astype(np.uint8)
+    mask = rs.randint(1, 5, tuple(shape)).astype(np.uint8)
+    data = dict(image=img, mask=mask, masks=[mask.copy(), mask.copy() + 1], dicom=copy.deepcopy(DICOM))
+    pipe = A.Compose([getattr(A, name)(p=1.0, **kw)])
+    R.seed(seed)
+    return pipe(**copy.deepcopy(data)), data
+
+
+def check_dropout_shapes(name, kw, case, viol):
+    """dropout transforms: image, mask and every entry of masks keep their shape and dtype, the header is untouched --
+    on every channel layout and also on single-column / single-slice volumes"""
+    try:
+        res, data = run_dropout(name, kw, case['shape'], case['channels'], case['seed'])
+    except Exception as e:  # noqa
+        if isinstance(e, ValueError) and name in ('CoarseDropout', 'GridDropout') and min(case['shape']) == 1:
+            return          # hole / grid limits larger than a one-voxel extent: a documented rejection
+        try:
+            run_dropout(name, kw, [8, 8, 8], None, case['seed'])
+        except Exception:  # noqa -- the configuration does not run at all: C08's question
+            return
+        viol.append({'site': 'C12:%s:raises-on-this-layout' % name, 'kind': 'dropout_shape', 'name': name, 'kw': kw, 'case': case,
+                     'observed': '%s: %s' % (type(e).__name__, str(e)[:160]),
+                     'expected': 'image %s and mask %s returned (the same configuration runs on a plain 8 x 8 x 8 volume)'
+                                 % (list(case['shape']) + ([case['channels']] if case['channels'] else []), list(case['shape']))})
+        return
+    for k in ('image', 'mask'):
+        if res[k].shape != data[k].shape or res[k].dtype != data[k].dtype:
+            viol.append({'site': 'C12:%s:%s-shape' % (name, k), 'kind': 'dropout_shape', 'name': name, 'kw': kw, 'case': case,
+                         'observed': '%s %s' % (res[k].shape, res[k].dtype), 'expected': '%s %s' % (data[k].shape, data[k].dtype)})
+            return
+    if any(a.shape != b.shape for a, b in zip(res['masks'], data['masks'])) or res['dicom'] != data['dicom']:
+        viol.append({'site': 'C12:%s:masks-or-header' % name, 'kind': 'dropout_shape', 'name': name, 'kw': kw, 'case': case,
+                     'observed': 'masks %s, header %s' % ([m.shape for m in res['masks']], res['dicom']), 'expected': 'unchanged shapes, identical header'})
 
 
 def check_coarse_dropout(case, viol):
@@ -149,14 +190,29 @@ def run(seed=0, tier='quick', hints=None, broken=False):
     for name in IMAGE_ONLY:
         cfgs = configurations(name)
         rng.shuffle(cfgs)
-        for kw, chn in [(kw, chn) for kw in cfgs for chn in (None, 1, 3)] * (1 if tier == 'quick' else 4):
+        combos = [(kw, chn, None) for kw in cfgs for chn in (None, 1, 3)] + \
+                 [(kw, chn, ax) for i, kw in enumerate(cfgs) for chn, ax in ((None, 1 + i % 2), (3, 2 - i % 2))]
+        for kw, chn, thin in combos * (1 if tier == 'quick' else 4):
             # every documented configuration x channel layouts HWD / HWD1 / HWD3; cubic volumes now and then (a
-            # broadcast that goes wrong raises on a non-cubic volume but silently changes the shape of a cubic one)
+            # broadcast that goes wrong raises on a non-cubic volume but silently changes the shape of a cubic one);
+            # and every configuration on a single-column and on a single-slice volume, without and with channels
             shape = list(rng.sample([6, 8, 9, 10, 12], 3)) if rng.random() < 0.7 else [rng.choice([6, 8])] * 3
+            if thin is not None:
+                shape[thin] = 1
             case = {'shape': shape, 'channels': chn, 'seed': R.pick_seed(rng)}
             check_image_only(name, kw, case, viol)
             evals += 1
             seen.add((name, repr(kw), case['channels']))
+    for name in ('CoarseDropout', 'GridDropout', 'PixelDropout'):
+        cfgs = configurations(name)
+        for i, kw in enumerate(cfgs * (1 if tier == 'quick' else 4)):
+            for chn, thin in ((None, None), (3, None), (None, 1 + i % 2), (3, 2 - i % 2), (2, 2)):
+                shape = list(rng.sample([6, 8, 9, 10, 12], 3))
+                if thin is not None:
+                    shape[thin] = 1
+                case = {'shape': shape, 'channels': chn, 'seed': R.pick_seed(rng)}
+                check_dropout_shapes(name, kw, case, viol)
+                evals += 1
     for _ in range(25 if tier == 'quick' else 800):
         case = {'shape': list(rng.sample([4, 5, 6, 8, 10], 3)), 'seed': R.pick_seed(rng),
                 'mask_fill': rng.choice([None, 7])}
@@ -171,6 +227,8 @@ def replay(v):
     viol = []
     if v.get('kind') == 'coarse':
         check_coarse_dropout(v['case'], viol)
+    elif v.get('kind') == 'dropout_shape':
+        check_dropout_shapes(v['name'], v['kw'], v['case'], viol)
     else:
         check_image_only(v['name'], v['kw'], v['case'], viol)
     return bool(viol)
